@@ -41,3 +41,11 @@ Theorem C17_download_end_to_end : forall sha384 name sz data, name <> [] -> data
     (r0, quiet (3 + (length (chunks sz data) - 1)) ++ [(Some (RDone (blen data)), Some (name, data))]).
 Proof. exact download_end_to_end. Qed.
 Print Assumptions C17_download_end_to_end.
+
+(* end to end, upload: the owner's receiver fed the device's messages (length, data chunks, digest last, a ProduceInfo tick
+   after each) stores exactly the file, at the last tick, for every content of at least one byte and every chunk size *)
+Theorem C17_upload_end_to_end : forall sha384 sz data, data <> [] -> sha384 data <> [] -> (1 <= sz)%nat ->
+  snd (ul_run sha384 u0 (upload_messages sha384 sz data)) =
+    [None; None] ++ quiet2 (chunks sz data) ++ [None; Some (inr data)].
+Proof. exact upload_end_to_end. Qed.
+Print Assumptions C17_upload_end_to_end.
